@@ -117,9 +117,49 @@ def stmts(body):
     return [norm(x) for x in body.split(";") if x.strip()]
 
 
+def translate_field(repo):
+    """field.hpp: `dump` (header, the stack's writer, footer) and the stream constructor (header inside the member initialiser,
+    whose result is the stream handed to the stack's reader; footer in the body)"""
+    text = strip_comments((Path(repo) / CORE / "field.hpp").read_text())
+    try:
+        tm = re.search(r"IO_MAGIC_HEADER\s*=\s*(0x[0-9A-Fa-f]+)", text)
+        if not tm:
+            raise Untranslatable("no IO_MAGIC_HEADER")
+        _, dbody = find_function(text, r"void\s+dump")
+        w = []
+        for t in stmts(dbody):
+            if t == "utility::write_io_header(fs, IO_MAGIC_HEADER)":
+                w.append("H")
+            elif t == "utility::write_io_footer(fs, IO_MAGIC_HEADER)":
+                w.append("F")
+            elif t == "backend_t::owning_data_t::write_binary(fs, m_backend)":
+                w.append("I")
+            else:
+                raise Untranslatable(f"dump statement `{t[:90]}`")
+        m = re.search(r"explicit\s+field\s*\(\s*std::istream\s*&\s*fs\s*\)\s*:(.*?)\{(.*?)\}", text, re.S)
+        if not m:
+            raise Untranslatable("stream constructor not found")
+        init = re.sub(r"\s+", "", m.group(1))
+        if init != "m_backend(decltype(m_backend)::read_binary(utility::read_io_header(fs,IO_MAGIC_HEADER)))":
+            raise Untranslatable(f"stream constructor initialiser `{init[:100]}`")
+        r = ["H", "I"]
+        for t in stmts(m.group(2)):
+            if t == "utility::read_io_footer(fs, IO_MAGIC_HEADER)":
+                r.append("F")
+            else:
+                raise Untranslatable(f"stream constructor statement `{t[:90]}`")
+        return f"(io {int(tm.group(1), 16)} (write {' '.join(w)}) (read {' '.join(r)}))"
+    except Untranslatable:
+        raise
+    except (IndexError, KeyError, ValueError, TypeError, AttributeError) as e:
+        raise Untranslatable(f"{type(e).__name__}: {e}")
+
+
 def translate(repo, layer):
     if layer == "io_array":
         return translate_array(repo)
+    if layer == "io_field":
+        return translate_field(repo)
     path = Path(repo) / CORE / LAYERS[layer]
     text = strip_comments(path.read_text())
     m = re.search(r"struct\s+owning_data_t\s*\{", text)
@@ -173,7 +213,7 @@ def translate(repo, layer):
 if __name__ == "__main__":
     import sys
     repo = sys.argv[sys.argv.index("--repo") + 1] if "--repo" in sys.argv else "/repo"
-    for k in ["io_array"] + list(LAYERS):
+    for k in ["io_array", "io_field"] + list(LAYERS):
         try:
             print(k, translate(repo, k))
         except Untranslatable as e:
